@@ -402,6 +402,8 @@ class Gen:
             return
         f = self.new_fn(params=self.structure_params(pleaves), results=[], err=self.chance(0.6))
         self.decorate_fn(f, role="inv")
+        if f.get("err") and (f.get("plan") or ["ok"])[0] == "err" and self.chance(0.5):
+            f["err_concrete"] = True     # declared as `*UserErr`, a concrete type implementing error
         self.ops.append(dict(op="invoke", scope=s, fn=f["id"]))
 
     def gen_dec_chain(self):
